@@ -4,8 +4,8 @@
   Model: Aqv.Model.ChainDb (store, events, `recover` = NewBlockChain → loadLastState → repair/Reset, the discipline
   `LocalOK`, the statement `RecoverOK`, trie `commit`, `Database.Commit` with write failures) and
   Aqv.Model.ChainWriter (`WriteBlockWithState` / `reorg` / `insert` / `Stop` / `SetHead` as event emitters; `Variant.head` is
-  the code as written, `Variant.preFix` the tree before fix commits 141a732 / deec78d — theorems named `prefix_*` document
-  the crash windows that tree had).  Helpers: Aqv.Lemmas.ChainDb, ChainWriter, ChainWriterTrace.
+  the code as written (141a732, deec78d, 3f14ce8), `Variant.fix1` the tree before 3f14ce8, `Variant.preFix` the tree before
+  141a732 / deec78d — theorems named `prefix_*` document those trees and the crash windows the oldest one had).  Helpers: Aqv.Lemmas.ChainDb, ChainWriter, ChainWriterTrace.
 
   A crash leaves exactly a PREFIX of the event sequence on disk (LevelDB batch atomicity and write ordering are the
   property's own premise).  "For every crash point" is therefore "for every prefix of the write log".
@@ -131,7 +131,9 @@ example : (preLoop 100 (some 1) [(1, 60), (2, 60)] { acts := [.lk .rlock] }).1 =
 /-! ## 4. The writers: every prefix of the write log is a good image -/
 
 /-- **`impl_trace_ok`: the writers as written** (`Variant.head`: block batch flushed before `reorg`; `insert` writes the
-    canonical number and the head markers in one batch): for every initial image satisfying the invariant, every history of block imports
+    canonical number and the head markers in one batch which, when the heads move, also deletes the number entries above
+    the block, drops the lookups of the displaced blocks and re-points stale entries below (3f14ce8); `reorg` has no
+    clean-up loop): for every initial image satisfying the invariant, every history of block imports
     (any blocks, any fork-choice outcomes — extensions, side blocks, reorganisations to longer, equal and shorter branches),
     `WriteBlockWithoutState`, `Stop` and reopen, under the archive and the pruning configuration, the write log satisfies
     `TraceOK`: every crash prefix is a `LocalOK` image whose head pointer names the last block made head.
@@ -151,6 +153,13 @@ theorem every_crash_recovers (archive : Bool) (V : Hash → Hdr → Prop) (db : 
       RecoverOK archive (applyAll db (p.map (·.1))) (recover (applyAll db (p.map (·.1)))) ∧
       headPtr (applyAll db (p.map (·.1))) = some (ghostAt g p) :=
   trace_discipline_sound archive db g _ (impl_trace_ok archive V db g hi steps hok)
+
+/-- the tree between 141a732/deec78d and 3f14ce8 (plain atomic `insert`, clean-up loop in `reorg`) satisfied the same
+    statement: 3f14ce8 is about the number index and the lookups (C03), not about crash consistency -/
+theorem prefix_fix1_trace_ok (archive : Bool) (V : Hash → Hdr → Prop) (db : Db) (g : Hash) (hi : Inv archive V db g)
+    (steps : List Step) (hok : StepsOK archive V .fix1 { db := db, head := g, hhdr := g } steps) :
+    TraceOK archive db g (writeLog .fix1 db g steps) = true :=
+  writeLog_traceOK .fix1 hi steps hok
 
 /-- **The tree before 141a732 / deec78d**: the same statement held only for histories in which no import
     reorganises (each block that becomes head extends the current head; side blocks are unrestricted).  The excluded
@@ -200,12 +209,12 @@ theorem prefix_head_before_batch_witness :
 
 /-- flushing the block batch first (141a732 without deec78d) removes the panic window but not the index window -/
 theorem prefix_batchFirst_only_witness :
-    (∀ k, k ≤ (writeLog ⟨true, false⟩ gen0 0 siblingReorg).length →
-      (recover (applyAll gen0 (((writeLog ⟨true, false⟩ gen0 0 siblingReorg).take k).map (·.1)))).isOk = true) ∧
-    firstBad true gen0 0 (writeLog ⟨true, false⟩ gen0 0 siblingReorg) 0 = some 11 := by
+    (∀ k, k ≤ (writeLog { batchFirst := true, atomicInsert := false } gen0 0 siblingReorg).length →
+      (recover (applyAll gen0 (((writeLog { batchFirst := true, atomicInsert := false } gen0 0 siblingReorg).take k).map (·.1)))).isOk = true) ∧
+    firstBad true gen0 0 (writeLog { batchFirst := true, atomicInsert := false } gen0 0 siblingReorg) 0 = some 11 := by
   refine ⟨?_, by decide⟩
   intro k hk
-  have hl : (writeLog ⟨true, false⟩ gen0 0 siblingReorg).length = 19 := by decide
+  have hl : (writeLog { batchFirst := true, atomicInsert := false } gen0 0 siblingReorg).length = 19 := by decide
   rw [hl] at hk
   have : k = 0 ∨ k = 1 ∨ k = 2 ∨ k = 3 ∨ k = 4 ∨ k = 5 ∨ k = 6 ∨ k = 7 ∨ k = 8 ∨ k = 9 ∨ k = 10 ∨ k = 11 ∨ k = 12 ∨ k = 13 ∨
       k = 14 ∨ k = 15 ∨ k = 16 ∨ k = 17 ∨ k = 18 ∨ k = 19 := by omega
